@@ -217,7 +217,12 @@ class SubclassJSONSerializer:
             raise InvalidTypeFormatError(fully_qualified_class_name)
 
         try:
-            module = importlib.import_module(module_name)
+            # import the packages from the outermost to the innermost one: importlib imports the parents of a dotted name
+            # recursively, a name with many dots would end in a RecursionError.
+            module = None
+            package_names = module_name.split(".")
+            for depth in range(1, len(package_names) + 1):
+                module = importlib.import_module(".".join(package_names[:depth]))
         except ImportError as exc:
             raise UnknownModuleError(module_name) from exc
 
